@@ -77,7 +77,7 @@ def build_harness():
 
 
 def rundir(name):
-    d = os.path.join(OUT, "run", name)
+    d = os.path.join(OUT, "run", "%s_s%d" % (name, seed()))
     shutil.rmtree(d, ignore_errors=True)
     os.makedirs(d)
     return d
